@@ -48,4 +48,6 @@ func race(c Val) Val {
 	return out
 }
 
-func main() { Main(map[string]func(Val) Val{"C05": reghist.History, "C05_race": race}) }
+var commands = map[string]func(Val) Val{"C05": reghist.History, "C05_race": race}
+
+func main() { Main(commands) }
